@@ -218,6 +218,7 @@ def run_case(case, seed=0, replay_dir=None, known=None):
             qdom.reset()
             inp = case.inputs(case.conc(seed + 17 * k + 1))
             qdom.NUMERIC[0] = True
+            case.stage = "validate"
             try:
                 o_int, _ = interp(inp)
             finally:
@@ -245,12 +246,14 @@ def run_case(case, seed=0, replay_dir=None, known=None):
                 Vc = case.conc(seed + 31 * k + 5)
                 inp_c = case.inputs(Vc)
                 qdom.NUMERIC[0] = True
+                case.stage = "prescreen"
                 try:
                     out_c, _ = interp(inp_c)
                     rels_c = case.relations(inp_c, out_c)
                 finally:
                     qdom.NUMERIC[0] = False
-            except Exception:
+            except Exception as ex:
+                res["traced"]["prescreen_aborted"] = f"{type(ex).__name__}: {str(ex)[:200]}"
                 break
             done = {v["label"] for v in res["violations"]} | {v["label"] for v in res["known"]}
             for label, lhs, rhs in rels_c:
@@ -285,6 +288,7 @@ def run_case(case, seed=0, replay_dir=None, known=None):
             V = SymV(holo=holo)
             inp = case.inputs(V)
             t0 = time.time()
+            case.stage = "symbolic"
             try:
                 out, it = interp(inp)
                 res["traced"]["interp_s"] = round(time.time() - t0, 3)
@@ -385,7 +389,8 @@ def run_case(case, seed=0, replay_dir=None, known=None):
                                  "compared quantities identically zero)")
         res["atoms"] = dict(qdom.ATOMS.stats, count=len(qdom.ATOMS.vals), holomorphic_vars=len(qdom.HOLO))
     except (PolyBudget, MemoryError) as ex:
-        res["inconclusive"].append(f"budget: {type(ex).__name__}: {ex}")
+        tb = [ln.strip() for ln in traceback.format_exc().splitlines() if ln.strip().startswith("File") and ("/checks/" in ln or "/vf/" in ln)]
+        res["inconclusive"].append(f"budget: {type(ex).__name__}: {ex} [{' <- '.join(t.split('/')[-1] for t in tb[-6:][::-1])}]")
     except Exception as ex:  # engine error; CrossHair-style BaseExceptions are not used here
         res["errors"].append(f"{type(ex).__name__}: {ex}\n{traceback.format_exc()[-1500:]}")
     res["wall_s"] = round(time.time() - t_start, 3)
